@@ -112,8 +112,8 @@ class Tracker:
             elif mn in ("mov", "movq") and len(ops) == 2 and reg(ops[0]) and reg(ops[1]) and self.full_width(ops[0]) and self.full_width(ops[1]):
                 effect[fam(ops[1], isa)] = ("copy", fam(ops[0], isa), 0)
         else:
-            if mn in ("add", "sub") and len(ops) == 3 and reg(ops[0]) and reg(ops[1]) and imm(ops[2]) is not None and self.full_width(ops[0]) and self.full_width(ops[1]):
-                effect[fam(ops[0], isa)] = ("copy", fam(ops[1], isa), imm(ops[2]) if mn == "add" else -imm(ops[2]))
+            if mn in ("add", "sub", "adds", "subs") and len(ops) == 3 and reg(ops[0]) and reg(ops[1]) and imm(ops[2]) is not None and self.full_width(ops[0]) and self.full_width(ops[1]):
+                effect[fam(ops[0], isa)] = ("copy", fam(ops[1], isa), imm(ops[2]) if mn.startswith("add") else -imm(ops[2]))
             elif mn == "mov" and len(ops) == 2 and reg(ops[0]) and reg(ops[1]) and self.full_width(ops[0]) and self.full_width(ops[1]):
                 effect[fam(ops[0], isa)] = ("copy", fam(ops[1], isa), 0)
         wb = {}
